@@ -6,6 +6,7 @@ From Coq Require Import List ZArith Bool Permutation.
 From GZ Require Import Lib.RollingWindow Lib.RollingWindowSpec Lib.RollingWindowProofs.
 From GZ Require Import C16.Model C16.ProofsMap C16.ProofsSeq C16.ProofsCache C16.ProofsCacheLru.
 From GZ Require Import C16.ModelW C16.ProofsW C16.ProofsWClamp.
+From GZ Require Import C16.Lin C16.ProofsLin C16.Check C16.ProofsExtra.
 Import ListNotations.
 Open Scope Z_scope.
 
@@ -78,6 +79,40 @@ Theorem safemap_generations_disjoint : forall cfg ops m,
   m = sm_final cfg sm_new ops -> NoDup (map fst (dirtyOld m ++ dirtyNew m)).
 Proof. exact safemap_keys_unique. Qed.
 Print Assumptions safemap_generations_disjoint.
+
+(* While deletionOld <= maxDeletion the new generation is empty and its deletion counter is 0:
+   writes reach dirtyNew only while deletionOld > maxDeletion ("draining") and the only way
+   back, the first migration of Del, empties dirtyNew.  Hence the branch of Set that removes
+   the key from dirtyNew before writing dirtyOld is dead code (no history executes it: the
+   coverage report lists it as never reached, this is why). *)
+Theorem safemap_new_generation_only_while_draining : forall cfg ops,
+  let m := sm_final cfg sm_new ops in
+  delOld m <= maxDeletion cfg -> dirtyNew m = [] /\ delNew m = 0.
+Proof. exact safemap_new_generation_only_while_draining_proof. Qed.
+Print Assumptions safemap_new_generation_only_while_draining.
+
+Theorem safemap_set_dead_branch : forall cfg ops k,
+  let m := sm_final cfg sm_new ops in
+  delOld m <= maxDeletion cfg -> amem k (dirtyNew m) = false.
+Proof. exact safemap_set_dead_branch_proof. Qed.
+Print Assumptions safemap_set_dead_branch.
+
+(* Range whose callback stops it after n calls was shown n pairs (all of them when the map is
+   smaller) of the map, no key twice - whatever the generations look like. *)
+Theorem safemap_stopped_range_shows_map_entries : forall cfg ops n,
+  let m := sm_final cfg sm_new ops in
+  let a := map_final [] ops in
+  let vis := firstn n (dirtyOld m ++ dirtyNew m) in
+  NoDup (map fst vis) /\ forallb (in_amap a) vis = true /\ length vis = Nat.min n (length a).
+Proof. exact range_prefix_allowed_proof. Qed.
+Print Assumptions safemap_stopped_range_shows_map_entries.
+
+(* non-vacuity: draining state (thresholds 2, 2): key 1 has moved to the new generation *)
+Example ex_safemap_draining :
+  let m := sm_final (mkSMC 2 2) sm_new
+             [MSet 1 10; MSet 2 20; MSet 9 0; MDel 9; MSet 9 0; MDel 9; MSet 9 0; MDel 9; MSet 1 11] in
+  m = mkSM 4 0 [(2, 20)] [(1, 11)] /\ (delOld m <=? 2) = false.
+Proof. vm_compute. split; reflexivity. Qed.
 
 (* non-vacuity: thresholds (copyThreshold 3, maxDeletion 3); the third deletion
    copies dirtyOld into dirtyNew, swaps the generations and resets the counters *)
@@ -179,6 +214,37 @@ Theorem cache_take_loads_only_on_miss : forall limit ops k f,
 Proof. exact cache_take_loads_only_on_miss_proof. Qed.
 Print Assumptions cache_take_loads_only_on_miss.
 
+(* ... when the loader fails on a miss nothing is stored, nothing evicted, the recency order
+   untouched: the cache is exactly as it was (the error is not cached) ... *)
+Theorem cache_take_failure_stores_nothing : forall limit ops k,
+  let c := c_final (c_new limit) ops in
+  alookup k (cdata c) = None ->
+  c_step c (CTake k None) = (c, OTake None true, []).
+Proof. exact cache_take_failure_stores_nothing_proof. Qed.
+Print Assumptions cache_take_failure_stores_nothing.
+
+(* ... and a successful load on a miss is a Set of the loaded value *)
+Theorem cache_take_miss_is_set : forall limit ops k v,
+  let c := c_final (c_new limit) ops in
+  alookup k (cdata c) = None ->
+  c_step c (CTake k (Some v)) = (fst (c_set c k v), OTake (Some v) true, snd (c_set c k v)).
+Proof. exact cache_take_miss_is_set_proof. Qed.
+Print Assumptions cache_take_miss_is_set.
+
+(* the recency-list cache and the oldest-stamp reference hold the same keys, in the same
+   number, after every prefix of every history (observations CHeld / CSize of Check.v, which
+   read c.data without touching the recency order) *)
+Theorem cache_holds_reference_keys : forall limit ops,
+  cc_run (c_new limit) ops = sc_run (s_new limit) ops.
+Proof. exact cache_holds_reference_keys_proof. Qed.
+Print Assumptions cache_holds_reference_keys.
+
+(* non-vacuity: limit 1; a failed load of key 2 leaves key 1 where it was *)
+Example ex_cache_failed_load :
+  cc_run (c_new 1) [CC (CSet 1 10); CC (CTake 2 None); CHeld; CSize; CC (CTake 2 (Some 20)); CHeld] =
+    [OUnit; OTake None true; OList [1]; ONum 1; OTake (Some 20) true; OList [2]].
+Proof. vm_compute. reflexivity. Qed.
+
 (* non-vacuity: limit 2; Get 1 makes key 2 the least recently used, Set 3 evicts it *)
 Definition ex_c_ops : list cop := [CSet 1 10; CSet 2 20; CGet 1; CSet 3 30; CTake 2 (Some 21); CTake 3 None].
 Example ex_cache :
@@ -233,32 +299,36 @@ Proof. exact cache_rewrite_resets_expiry_proof. Qed.
 Print Assumptions cache_rewrite_resets_expiry.
 
 (* The code as repaired (9733d1f: a rewrite refreshes the timer with SetTimer, mv = false)
-   for EVERY expiry d, also below one wheel interval: the entry lives for
+   for EVERY expiry d the wheel accepts, also below one wheel interval: the entry lives for
    floor(max d interval / interval) >= 1 ticks from its latest Set - a rewrite never
    makes the entry vanish before it expired (with MoveTimer a rewrite with d < interval
-   removed it at once: Pinned.cache_subinterval_rewrite_refuted). *)
+   removed it at once: Pinned.cache_subinterval_rewrite_refuted).
+   0 < d: TimingWheel.SetTimer refuses a delay <= 0 (ErrArgument, ignored by SetWithExpire), so
+   with a non-positive expiry the value is stored and the key's timer - none for a new key, the
+   previous one for a rewrite - is left as it is (modelled by Check.cwx_step and compared with
+   the code; outside the property, which speaks of entries that expire). *)
 Theorem cache_entry_expires_clamped : forall limit n i pre k v d a,
-  1 <= n -> 1 <= i ->
+  1 <= n -> 1 <= i -> 0 < d ->
   let s1 := cw_final (cw_new limit n i false) (pre ++ [XSet k v d]) in
   forallb (fun o => negb (xwrites k o)) a = true ->
   cw_never_evicts s1 k a ->
   alookup k (cdata (cwc (cw_final s1 a))) = if xticks a <? Z.max d i / i then Some v else None.
-Proof. exact cache_entry_expires_clamped_proof. Qed.
+Proof. exact cache_entry_expires_clamped_pos. Qed.
 Print Assumptions cache_entry_expires_clamped.
 
 Theorem cache_rewrite_resets_expiry_clamped : forall limit n i pre k v0 d0 mid v d a,
-  1 <= n -> 1 <= i ->
+  1 <= n -> 1 <= i -> 0 < d ->
   let s0 := cw_final (cw_new limit n i false) (pre ++ XSet k v0 d0 :: mid) in
   amem k (cdata (cwc s0)) = true ->
   let s1 := cw_final s0 [XSet k v d] in
   forallb (fun o => negb (xwrites k o)) a = true ->
   cw_never_evicts s1 k a ->
   alookup k (cdata (cwc (cw_final s1 a))) = if xticks a <? Z.max d i / i then Some v else None.
-Proof. exact cache_rewrite_clamped_proof. Qed.
+Proof. exact cache_rewrite_clamped_pos. Qed.
 Print Assumptions cache_rewrite_resets_expiry_clamped.
 
 Theorem cache_rewrite_survives_until_tick : forall limit n i pre k v0 d0 mid v d a,
-  1 <= n -> 1 <= i ->
+  1 <= n -> 1 <= i -> 0 < d ->
   let s0 := cw_final (cw_new limit n i false) (pre ++ XSet k v0 d0 :: mid) in
   amem k (cdata (cwc s0)) = true ->
   let s1 := cw_final s0 [XSet k v d] in
@@ -266,7 +336,7 @@ Theorem cache_rewrite_survives_until_tick : forall limit n i pre k v0 d0 mid v d
   cw_never_evicts s1 k a ->
   xticks a = 0 ->
   alookup k (cdata (cwc (cw_final s1 a))) = Some v.
-Proof. exact cache_rewrite_survives_until_tick_proof. Qed.
+Proof. exact cache_rewrite_survives_until_tick_pos. Qed.
 Print Assumptions cache_rewrite_survives_until_tick.
 
 (* non-vacuity: key 1 live, rewritten with half an interval, read back before the tick *)
@@ -297,3 +367,24 @@ Example ex_cachew_run :
   cw_run (cw_new 2 300 1000 true) (ex_w_pre ++ [XSet 1 11 3500] ++ ex_w_a ++ [XTick; XGet 1; XGet 2]) =
     [OUnit; OUnit; OUnit; OUnit; OOpt (Some 11); OUnit; OUnit; OUnit; OOpt (Some 11); OUnit; OOpt None; OOpt (Some 20)].
 Proof. vm_compute. reflexivity. Qed.
+
+(* ------------------------------------------------------------------ *)
+(* Concurrent use (Lin.v).  The theorems above are about sequences of operations; the
+   collections serialise concurrent callers with a mutex, so a concurrent history must be
+   explainable as SOME sequence consistent with real time.  The search that decides this for
+   the histories observed on the implementation is exact: it answers true iff the events can
+   be ordered so that (1) no event is placed before one that had returned before it was called
+   and (2) the order is a run of the sequential step function with the observed results -
+   for every step function (each structure's reference model), state and finite set of events. *)
+Theorem linearisation_search_is_exact : forall (St Op : Type) (step : St -> Op -> St * obs) (canon : bool)
+    (st : St) (evs : list (lev Op)),
+  linearisable_b step canon st evs = true <-> linearisable step canon st evs.
+Proof. exact (@linearisable_b_correct). Qed.
+Print Assumptions linearisation_search_is_exact.
+
+(* non-vacuity: Put 1 and Take overlap, then Take (after both): the first Take saw the element,
+   so it is ordered after the Put; with the Take BEFORE the Put in real time there is no order *)
+Example ex_lin_queue :
+  linearisable_b fifo_step false [] [mkLev 1 4 (QPut 1) OUnit; mkLev 2 3 QTake (OOpt (Some 1)); mkLev 5 6 QTake (OOpt None)] = true /\
+  linearisable_b fifo_step false [] [mkLev 3 4 (QPut 1) OUnit; mkLev 1 2 QTake (OOpt (Some 1))] = false.
+Proof. vm_compute. split; reflexivity. Qed.
